@@ -76,11 +76,17 @@ def replay_serializer(rep):
 
 
 def run(rep):
+    common.load_contracts()
+    from contracts.filters import STRIPWS_SHAPE_CASES
+    return _run(rep, STRIPWS_SHAPE_CASES)
+
+
+def _run(rep, shape_cases):
     return generic.run_generic(
         rep, [('sqlparse.formatter.validate_options', None)] + SITE_FUNCS[:4] + SITE_FUNCS[-1:] + [('sqlparse.filters.others.SerializerUnicode.process', None),
               ('sqlparse.filters.others.StripWhitespaceFilter._stripws_default', 'normal form'),
               # the split words of the reindent filters are matched with Token.match(..., regex=True)
-              ('sqlparse.sql.Token.match', 'regex form'), ('sqlparse.sql.Token.__init__', 'body')],
+              ('sqlparse.sql.Token.match', 'regex form'), ('sqlparse.sql.Token.__init__', 'body')] + list(shape_cases),
         structural=[replay_serializer, nl_obligations, stack_mapping],
         assumptions=['proved: the serializer joins lines that are right-stripped of every whitespace character (element '
                      'obligation of the real generator expression; str.rstrip() axiomatised as s == r ++ ws*, r not ending in '
